@@ -89,7 +89,8 @@ def cases_filter(tier):
             yield "objective/J2-sort01/" + tag, {"kind": "objective", "J": 2, "sort": [0, 1], "failed": failed, "first": first, "last": last}
             yield "objective/J2-sort1/" + tag, {"kind": "objective", "J": 2, "sort": [1], "failed": failed, "first": first, "last": last}
             yield "objective/J1/" + tag, {"kind": "objective", "J": 1, "sort": [0], "failed": failed, "first": first, "last": last}
-            yield "constraint/K2-sort1/" + tag, {"kind": "constraint", "K": 2, "sort": 1, "failed": failed, "first": first, "last": last}
+            for bk in ("lower", "upper", "equality"):
+                yield "constraint/K2-sort1/%s/" % bk + tag, {"kind": "constraint", "K": 2, "sort": 1, "failed": failed, "first": first, "last": last, "bounds": bk}
 
 
 def scn_filter(T, case):
@@ -114,8 +115,12 @@ def scn_filter(T, case):
         K = case["K"]
         obj = T.real("objectives", (n, 1), nan=nanmask[:, None])
         con = T.real("constraints", (n, K), nan=np.repeat(nanmask[:, None], K, axis=1))
+        # the sort filter ranks by the constraint VALUE, whatever the kind of its bounds: lower-bounded, upper-bounded and equality rows
+        bk = case.get("bounds", "lower")
+        nlb = T.const(np.array({"lower": [0.0, 0.0], "upper": [-np.inf, -np.inf], "equality": [1.0, 1.0]}[bk]))
+        nub = T.const(np.array({"lower": [np.inf, np.inf], "upper": [0.0, 0.0], "equality": [1.0, 1.0]}[bk]))
         cfg = types.SimpleNamespace(objectives=types.SimpleNamespace(weights=T.const([1.0])), realizations=types.SimpleNamespace(weights=cfgw),
-                                    nonlinear_constraints=types.SimpleNamespace())
+                                    nonlinear_constraints=types.SimpleNamespace(lower_bounds=nlb, upper_bounds=nub, realization_filters=None, function_estimators=None))
         flt = _filter(T, "sort-constraint", {"sort": case["sort"], "first": case["first"], "last": case["last"]}, cfg)
         key = [con[i, case["sort"]] if not failed[i] else 0.0 for i in range(n)]
     obj0 = obj.copy()
